@@ -9,7 +9,7 @@ from fractions import Fraction
 import z3
 
 from . import source
-from .engine import (Ctx, Interp, PyExc, PathAbort, Unsupported, Obj, Func, BoundMethod, is_z3)
+from .engine import (Ctx, Interp, PyExc, PathAbort, PathDone, Unsupported, Obj, Func, BoundMethod, is_z3)
 
 
 class Outcome:
@@ -72,6 +72,9 @@ def explore(unit, world_factory, max_paths=4000, branch_timeout_ms=3000):
         try:
             res = unit.run(I)
             paths.append({'ctx': ctx, 'result': res, 'world': world})
+            stats['paths'] += 1
+        except PathDone:
+            paths.append({'ctx': ctx, 'result': None, 'world': world})
             stats['paths'] += 1
         except PathAbort:
             stats['aborted'] += 1
